@@ -298,7 +298,7 @@ def value_sites():
     @site("json-term")
     def _(N, V, Qc):
         t = P.Table("t")
-        return Qc.from_(t).select(T.JSON(V if isinstance(V, (dict, list, str)) else {"k": V}))
+        return Qc.from_(t).select(T.JSON(V))
 
     @site("orderby,analytic")
     def _(N, V, Qc):
